@@ -52,13 +52,29 @@ impl EventLog {
 
     pub fn replay(&self) -> io::Result<Vec<Event>> {
         let file = File::open(&self.path)?;
-        let reader = BufReader::new(file);
+        let mut reader = BufReader::new(file);
         let mut events = Vec::new();
-        for line in reader.lines() {
-            let line = line?;
-            let event: Event = serde_json::from_str(&line)
-                .map_err(|err| io::Error::new(io::ErrorKind::InvalidData, err))?;
-            events.push(event);
+        let mut line = Vec::new();
+        loop {
+            line.clear();
+            if reader.read_until(b'\n', &mut line)? == 0 {
+                break;
+            }
+            let terminated = line.last() == Some(&b'\n');
+            if terminated {
+                line.pop();
+                if line.last() == Some(&b'\r') {
+                    line.pop();
+                }
+            }
+            match serde_json::from_slice::<Event>(&line) {
+                Ok(event) => events.push(event),
+                // An unterminated last line that does not parse is a frame whose append is still
+                // in flight (a reader racing a writer) or was cut by a crash: it is not part of
+                // the log yet, and must not make everything before it unreadable.
+                Err(_) if !terminated => break,
+                Err(err) => return Err(io::Error::new(io::ErrorKind::InvalidData, err)),
+            }
         }
         Ok(events)
     }
